@@ -257,6 +257,14 @@ def gen_C18(tier, seed, unit, nunits):
             x = G.rand_val(rng, s, n, f, E)
             steps = [wstep(rng, s, n, f, E, x if i == 0 else None) for i in range(rng.randint(2, 12))]
             out.append(f'wprog {s} {n} {f} {x} ' + ' '.join(steps))
+        # the critical values crossed with themselves through every two-operand step (MIN / -1 ulp on an all-fraction type is one pair among 2^(2n):
+        # seed s60b reintroduced the repaired defect D3 there and the random programs above did not meet it)
+        C = G.crit(s, n, f)
+        for x in C:
+            for y in C:
+                for op in ('add', 'sub', 'mul', 'div', 'rem', 'div_euclid', 'rem_euclid'):
+                    var = '' if op.endswith('euclid') else '.' + rng.choice(BINVARS)
+                    out.append(f'wprog {s} {n} {f} {x} {op}{var}:{y}')
     # accessor functions of Wrapping<F> that return plain numbers, and its Display impl
     for (s, n, f) in unit_layouts(G.typed_layouts(tier), unit, nunits):
         rng = random.Random(f'{seed}/C18q/{s}/{n}/{f}')
